@@ -48,6 +48,10 @@ func c05States(c mcfg) []c05State {
 	st = append(st, c05State{"dir-after-failed-open", []mevent{att, dir, {Op: "open", Fid: 1, Mode: 0, ImplErr: true}}})
 	st = append(st, c05State{"dir-after-failed-mkdir", []mevent{att, dir, {Op: "create", Fid: 1, Name: "qd", Perm: go9p.DMDIR | 0755, Mode: 0, ImplErr: true}}})
 	st = append(st, c05State{"created-file-open-OWRITE", []mevent{att, dir, {Op: "create", Fid: 1, Name: "n", Perm: 0644, Mode: 1}}})
+	// perm bits that say nothing about what kind of fid results (the implementation's qid does)
+	for _, pb := range []uint32{0x08000000, 0x20000000, 0x04000000, 0x10000000, go9p.DMAPPEND} {
+		st = append(st, c05State{fmt.Sprintf("created-file-perm-%#x-open-ORDWR", pb), []mevent{att, dir, {Op: "create", Fid: 1, Name: "np", Perm: pb | 0644, Mode: 2}}})
+	}
 	st = append(st, c05State{"created-dir-open-OREAD", []mevent{att, dir, {Op: "create", Fid: 1, Name: "nd", Perm: go9p.DMDIR | 0755, Mode: 0}}})
 	if c.Auth {
 		st = append(st, c05State{"auth-fid", []mevent{att, {Op: "auth", Afid: 1, Uid: 7, Uname: "glenda"}}})
@@ -371,7 +375,7 @@ func c05Scenarios(tier string) []Scenario {
 func init() {
 	register(&Property{ID: "C05", Level: "model_checking",
 		Technique: "reference-model conformance over the full (fid state x request) product, every pair executed on the real server; visibility clause by stateless model checking under the controlled scheduler",
-		Rule:      "fid states {absent, dir unopened/open, file unopened/open with modes 0,1,2,3,OWRITE|OTRUNC,OREAD|ORCLOSE,ORDWR|OTRUNC, created file/dir, reached by in-place/partial/failed walks, after refused or failed open/create, auth fid} x requests {walk names x newfid, open 4 modes x 3 flag sets, create 8 perm classes x 4 modes, read/write with counts 0,1,L-1,L,L+1,2^31,2^32-24..2^32-1, stat/wstat/clunk/remove with implementation success/error, attach/auth with every afid kind and AuthCheck verdict} x dialect x AuthOps x msize (quick 64,256,8216; thorough also 48,1024,65560); three-valued oracle (must refuse / must forward / either); arguments of a request held by the implementation while 1..8*msize/11 further requests arrive one per segment; visibility pairs: all schedules with at most P preemptions. states = distinct (request kind, verdict, rule) classes exercised",
+		Rule:      "fid states {absent, dir unopened/open, file unopened/open with modes 0,1,2,3,OWRITE|OTRUNC,OREAD|ORCLOSE,ORDWR|OTRUNC, created file/dir (also with the DMAUTH, DMEXCL, DMTMP, DMMOUNT, DMAPPEND perm bits), reached by in-place/partial/failed walks, after refused or failed open/create, auth fid} x requests {walk names x newfid, open 4 modes x 3 flag sets, create 8 perm classes x 4 modes, read/write with counts 0,1,L-1,L,L+1,2^31,2^32-24..2^32-1, stat/wstat/clunk/remove with implementation success/error, attach/auth with every afid kind and AuthCheck verdict} x dialect x AuthOps x msize (quick 64,256,8216; thorough also 48,1024,65560); three-valued oracle (must refuse / must forward / either); arguments of a request held by the implementation while 1..8*msize/11 further requests arrive one per segment; visibility pairs: all schedules with at most P preemptions. states = distinct (request kind, verdict, rule) classes exercised",
 		Assumptions: []string{"the reference model is a correct reading of the rules the property lists; corners it does not settle are accepted both ways", "product pairs run on the default schedule"},
 		Scenarios:   c05Scenarios, QuickS: 100, ThoroughS: 900})
 }
